@@ -313,7 +313,8 @@ def c15_8(ctx):
         if isinstance(st, ast.Assign) and isinstance(st.targets[0], ast.Name) and st.targets[0].id == "all_bits":
             v = st.value
             if isinstance(v, ast.BinOp) and isinstance(v.op, ast.BitOr) and isinstance(v.left, ast.BinOp) and isinstance(v.left.op, ast.LShift):
-                seq.append(("field", ast.unparse(v.left.left)))
+                if ast.unparse(v.left.left) != "all_bits":
+                    seq.append(("field", ast.unparse(v.left.left)))
                 seq.append(("shift", ast.unparse(v.left.right)))
                 seq.append(("field", ast.unparse(v.right)))
         elif isinstance(st, ast.AugAssign) and isinstance(st.target, ast.Name) and st.target.id == "all_bits":
@@ -343,8 +344,10 @@ def c15_8(ctx):
             ("value", "padding + self.share_bit_length")]
     if got == want:
         out.append(ctx.ok("shamir:Share.mnemonic", "header: id(15) exponent(5) group index(4) group threshold-1(4) group count-1(4) member index(4) member threshold-1(4) then padded value", fn, mod, key="header-writer"))
-    else:
+    elif len(got) == len(want):
         out.append(ctx.bad("shamir:Share.mnemonic", "header packing %s differs from SLIP39 %s" % (got, want), fn, mod, key="header-writer"))
+    else:
+        out.append(ctx.err("shamir:Share.mnemonic", "header packing idiom not recognised (found %s)" % got, fn, mod))
     # reader: expressions for each field
     mod, fn = rl.get(ctx, "shamir:Share.parse")
     exprs = {}
@@ -363,11 +366,16 @@ def c15_8(ctx):
         f = Folder(ctx.repo, mod.name, {"indices": list(probe)})
         vals = {}
         for name in want_r:
-            node = next((st.value for st in fn.body if isinstance(st, ast.Assign) and isinstance(st.targets[0], ast.Name) and st.targets[0].id == name), None)
-            if node is None:
-                ok, why = False, "field %s not parsed" % name
+            cfgp = cfg_of(fn)
+            site = next((n_ for n_ in cfgp.stmts(("stmt",)) if isinstance(n_.ast, ast.Assign) and isinstance(n_.ast.targets[0], ast.Name) and n_.ast.targets[0].id == name), None)
+            if site is None:
+                ok, why = None, "field %s is not assigned by name in Share.parse" % name
                 break
-            vals[name] = f.fold(node)
+            # locals the extraction goes through (`header = …`) are replaced by their definitions before folding
+            vals[name] = f.fold(expand(fn, site.id, site.ast.value, depth=16, stop=("indices",)))
+            if not isinstance(vals[name], int):
+                ok, why = None, "extraction of %s (`%s`) cannot be folded on a probe" % (name, ast.unparse(site.ast.value))
+                break
         if not ok:
             break
         bits = (probe[0] << 30) | (probe[1] << 20) | (probe[2] << 10) | probe[3]
@@ -378,7 +386,9 @@ def c15_8(ctx):
             bad = [k for k in exp if vals.get(k) != exp[k]]
             why = "field %s is extracted as `%s`, which does not read bits at the position the encoder writes them" % (bad[0], exprs.get(bad[0]))
             break
-    if ok:
+    if ok is None:
+        out.append(ctx.err("shamir:Share.parse", why, fn, mod))
+    elif ok:
         out.append(ctx.ok("shamir:Share.parse", "each header field is extracted from the bit positions the encoder writes (checked by folding the extraction expressions on 6 bit patterns)", fn, mod, key="header-reader"))
     else:
         out.append(ctx.bad("shamir:Share.parse", why, fn, mod, key="header-reader"))
